@@ -122,6 +122,19 @@ class C07(TraceCheck):
             n += 1
             yield {"h": 4, "w": 6, "hide": n % 2, "keep": 0, "pre": n % 3,
                    "steps": [{"arr": pairs[k:k + 3], "cp": [0, 0], "kind": "list"}, {"arr": pairs[k + 1:k + 4], "cp": [1, 1], "kind": "list"}]}
+        # rows that end in styled blanks followed by unstyled blanks / an empty unstyled chunk (an application-drawn block
+        # cursor followed by padding, a coloured label padded out): drawn in place, redrawn, and arriving through scrolling
+        sb = [frow([[[62, 120], PLAIN], [[32], [0, 0, 0, 0, 0, 0, 0, 2]], [[32, 32], PLAIN]]),
+              frow([[[32, 111, 107, 32], [0, 3, 0, 0, 0, 0, 0, 0]], [[32, 32], PLAIN]]),
+              frow([[[97], PLAIN], [[32, 32], [0, 0, 0, 0, 0, 2, 0, 0]], [[], PLAIN]]),
+              frow([[[97, 98], RED], [[32], [0, 5, 0, 0, 0, 0, 0, 0]], [[32], PLAIN]]),
+              frow([[[32, 32], [0, 0, 0, 0, 0, 0, 0, 2]], [[32], PLAIN]])]
+        for pre in (0, 2):
+            for hide in (0, 1):
+                n += 1
+                yield {"h": 4, "w": 7, "hide": hide, "keep": n % 2, "pre": pre,
+                       "steps": [{"arr": sb[:3], "cp": [0, 0], "kind": "list"}, {"arr": sb[1:], "cp": [1, 1], "kind": "list"},
+                                 {"arr": sb + sb[:2], "cp": [6, 2], "kind": "list"}]}
         # REPL-like growth: every render shows the previous array plus a few more lines (so earlier rows are row-cache
         # hits), the cursor stays in the same column on the last row; the window starts below existing output
         base_pool = lines_for(6)
